@@ -228,7 +228,11 @@ func (so *Sorts) structSort(t types.Type, u *types.Struct) string {
 	for i := 0; i < u.NumFields(); i++ {
 		f := u.Field(i)
 		fs := so.sortOf(f.Type())
-		dt.Fields = append(dt.Fields, DTField{Name: f.Name(), Acc: name + "_" + sanitize(f.Name()), Sort: fs, Ty: f.Type()})
+		acc := name + "_" + sanitize(f.Name())
+		if f.Name() == "_" {
+			acc = fmt.Sprintf("%s_blank%d", name, i)
+		}
+		dt.Fields = append(dt.Fields, DTField{Name: f.Name(), Acc: acc, Sort: fs, Ty: f.Type()})
 	}
 	var fl []string
 	for _, f := range dt.Fields {
@@ -267,6 +271,9 @@ func (so *Sorts) zeroOf(t types.Type) string {
 	case *types.Slice:
 		return "(mk_slice 0 0 0 0)"
 	case *types.Array:
+		if so.sortOf(u.Elem()) == "Str" {
+			return "zarr_Str" // cvc5 accepts only values in constant arrays; str_empty is an uninterpreted constant
+		}
 		return "((as const " + so.sortOf(t) + ") " + so.zeroOf(u.Elem()) + ")"
 	case *types.Struct:
 		dt := so.dtOf(t)
@@ -339,6 +346,7 @@ func preludeText() string {
 	sb.WriteString("(declare-datatypes ((Slice 0)) (((mk_slice (s_ref Int) (s_off Int) (s_len Int) (s_cap Int)))))\n")
 	sb.WriteString("(declare-sort Str 0)\n")
 	sb.WriteString("(declare-fun slen (Str) Int)\n(declare-fun sat (Str Int) Int)\n(declare-const str_empty Str)\n(assert (= (slen str_empty) 0))\n")
+	sb.WriteString("(declare-const zarr_Str (Array Int Str))\n")
 	sb.WriteString("(declare-fun scat (Str Str) Str)\n(declare-fun ssub (Str Int Int) Str)\n(declare-fun sfromb ((Array Int Int) Int Int) Str)\n")
 	one := big.NewInt(1)
 	for _, bits := range []int{8, 16, 32, 64} {
